@@ -130,6 +130,11 @@ def run(ctx, n=None):
         ("cfg/Zeta.yaml", "cfg/_base.yaml", ["cfg/*.yaml"], "b"),               # "Z" < "_"
         ("cfg/x10.yaml", "cfg/x9.yaml", ["cfg/*.yaml"], "b"),                   # not a numeric order: "x10" < "x9"
         ("cfg/\u00e9.yaml", "cfg/z.yaml", ["cfg/*.yaml"], "a"),                  # bytes of UTF-8, not collation: "z" < "é"
+        # a pattern is one -i value, whatever characters the file name contains (comma, blank, equals sign, semicolon)
+        ("cfg/base.yaml", "cfg/prod,eu.yaml", ["cfg/base.yaml", "cfg/prod,eu.yaml"], "b"),
+        ("cfg/prod,eu.yaml", "cfg/base.yaml", ["cfg/prod,eu.yaml", "cfg/base.yaml"], "b"),
+        ("cfg/base.yaml", "cfg/over ride.yaml", ["cfg/base.yaml", "cfg/over ride.yaml"], "b"),
+        ("cfg/base.yaml", "cfg/k=v;x.yaml", ["cfg/base.yaml", "cfg/k=v;x.yaml"], "b"),
     ]:
         files = {fa: gen.yaml_doc({"meta": {"pkg": "gen"}, "parameters": {"who": "a"}}), fb: gen.yaml_doc({"parameters": {"who": "b"}})}
         r = runsc.run_scenario(ctx, {"name": "order", "files": files, "patterns": pats, "out": "out/gen.go", "flags": {}}, with_model=True)
